@@ -61,6 +61,8 @@ def encodings(rng):
         # the two labels arrive in containers of different dimensionality
         "1x1 array vs scalar": lambda c, t: (lambda a, b: (np.array([[a]]), b))(*pick([4, 9, 11], c)),
         "scalar vs nested list": lambda c, t: (lambda a, b: (a, [[b]]))(*pick(["u", "v", "w"], c)),
+        # each label as the one-cell slice of ITS OWN column of a results frame (`row[["y_true"]]`, `row[["y_pred"]]`); a column that is renamed midway
+        "1x1 frames with their own column names": lambda c, t: (lambda a, b: (pd.DataFrame({"y_true" if t % 7 else "label": [a]}), pd.DataFrame({"y_pred": [b]})))(*pick([0, 1, 2], c)),
         "1x1 frame vs 1-d array": lambda c, t: (lambda a, b: (pd.DataFrame({"y": [a]}), np.array([b])))(*pick([0, 1, 2], c)),
     }
 
